@@ -151,6 +151,9 @@ TaskRaise(p, i, x) ==
   /\ dead' = [dead EXCEPT ![p] = @ \cup {i}]
   /\ \/ pst' = [pst EXCEPT ![p] = "crashed"] /\ perr' = [perr EXCEPT ![p] = x]
      \/ pst[p] = "stopping" /\ UNCHANGED <<pst, perr>>
+     \* (a shutdown that collects the workers' exceptions - fixes_proposed/C13-app-task-failure-after-stop-swallowed -
+     \*  surfaces it once the items in flight have finished: also admitted, so that the repair is not a drift)
+     \/ pst[p] = "stopping" /\ perr[p] = "none" /\ UNCHANGED pst /\ perr' = [perr EXCEPT ![p] = x]
   /\ Obs([e |-> "end", p |-> p, i |-> i, j |-> (st[p][i] + 1) \div 2, ok |-> FALSE, x |-> x])
   /\ UNCHANGED <<ast, apc, cur, nxt, code, sconc, cfgvars, stops, concs, uecs, run2s>>
 
